@@ -171,17 +171,82 @@ def linear_bc_values(g, fs, is_dir, flux_exact) -> np.ndarray:
     return vals
 
 
-def discretize_flow(g, K, bc, method="mpfa", extra=None, data=None):
-    """Discretise with pp.Mpfa / pp.Tpfa through pp.initialize_data; returns (matrices, data)."""
+def discretize_flow(g, K, bc, method="mpfa", extra=None, data=None, discr=None):
+    """Discretise with pp.Mpfa / pp.Tpfa through pp.initialize_data; returns (matrices, data).
+    `discr`: an existing discretisation object to be used again (reuse classes)."""
     import porepy as pp
 
     params = {"second_order_tensor": K, "bc": bc}
     if extra:
         params.update(extra)
     data = pp.initialize_data({} if data is None else data, KW, params)
-    discr = pp.Mpfa(KW) if method == "mpfa" else pp.Tpfa(KW)
+    if discr is None:
+        discr = pp.Mpfa(KW) if method == "mpfa" else pp.Tpfa(KW)
     discr.discretize(g, data)
     return data[pp.DISCRETIZATION_MATRICES][KW], data
+
+
+# --------------------------------------------------------------------------- reuse of one discretisation object
+# reuse spec: {"move": "none"|"scale"|"respace", "scale": [sx,sy,sz], "rseed": int,
+#              "K2": tensor spec | null, "bc2": bc spec | null, "same_data": bool}
+# One discretisation object discretises the generated problem, then the *same* grid / tensor / bc objects are
+# edited in place (nodes moved + compute_geometry(); tensor values overwritten; bc types overwritten) and the same
+# object discretises again (into the same data dictionary when same_data).  Everything is asserted on the second
+# result.  "scale" = per-axis scaling (an affine map: planar faces, simplices and K-orthogonal boxes stay what they
+# are); "respace" = new random spacings along every axis (only for axis-aligned Cartesian / tensor lattices).
+def axis_aligned_lattice(gs) -> bool:
+    return gs["kind"] in ("cart", "tensor") and not gs.get("pamp") and not gs.get("affine") and not gs.get("rigid")
+
+
+@st.composite
+def reuse_spec(draw, gs, tensor_kinds=("iso", "diag", "full"), het=False):
+    moves = ["none", "scale", "scale"] + (["respace", "respace"] if axis_aligned_lattice(gs) else [])
+    move = draw(st.sampled_from(moves))
+    k2 = draw(st.one_of(st.none(), spd_spec(kinds=tensor_kinds, het=het)))
+    b2 = draw(st.one_of(st.none(), bc_spec()))
+    if move == "none" and k2 is None and b2 is None:
+        move = "scale"
+    return {"move": move, "scale": [draw(_f(0.4, 2.5)) for _ in range(3)], "rseed": draw(st.integers(0, 2**31 - 1)),
+            "K2": k2, "bc2": b2, "same_data": draw(st.booleans())}
+
+
+def move_grid_in_place(g, rs) -> None:
+    if rs["move"] == "scale":
+        g.nodes = g.nodes * np.asarray(rs["scale"], dtype=float)[:, None]
+    elif rs["move"] == "respace":
+        rng = np.random.default_rng(rs["rseed"])
+        nodes = g.nodes.copy()
+        for ax in range(g.dim):
+            u, inv = np.unique(nodes[ax], return_inverse=True)
+            new = u[0] + np.concatenate(([0.0], np.cumsum(rng.uniform(0.3, 2.0, u.size - 1))))
+            nodes[ax] = new[inv]
+        g.nodes = nodes
+    if rs["move"] != "none":
+        g.compute_geometry()
+
+
+def apply_reuse(g, K, bc, ts, bs, rs):
+    """Edit grid, tensor and bc objects in place; returns (tensor spec, bc spec) now in force and labels."""
+    labels = ["reuse"]
+    if rs["move"] != "none":
+        move_grid_in_place(g, rs)
+        labels.append("reuse-moved-geometry")
+    if rs["K2"] is not None:
+        K2, _, _ = build_tensor(rs["K2"], g)
+        K.values[:] = K2.values
+        ts = rs["K2"]
+        labels.append("reuse-changed-tensor")
+    if rs["bc2"] is not None:
+        m = dirichlet_mask(rs["bc2"], g)
+        bnd = np.zeros(g.num_faces, dtype=bool)
+        bnd[g.get_all_boundary_faces()] = True
+        bc.is_dir[:] = m
+        bc.is_neu[:] = bnd & ~m
+        bs = rs["bc2"]
+        labels.append("reuse-changed-bc")
+    if rs["same_data"]:
+        labels.append("reuse-same-data")
+    return ts, bs, labels
 
 
 def abs_apply(M, v) -> np.ndarray:
